@@ -275,6 +275,33 @@ def norm_effect_str(x):
     return x.replace(" ", "")
 
 
+_READ_ONLY_EFFECT = re.compile(r"^(memoentry|memoget|writememo_get\(\)\.:=.*)$")
+
+
+def observable(effects):
+    """Effects that change something: looking a key up in the memo table (through the entry API or through get) is not one."""
+    return {e for e in effects if not _READ_ONLY_EFFECT.match(e)}
+
+
+def canon_memo_facts(facts):
+    """`memos.entry(key)` -> Occupied(o) / Vacant with `o.get()` and `memos.get(&key)` -> Some(stored) / None are two spellings of the
+    same look-up; facts are compared in the entry spelling:  get() is None == entry is Vacant;  get() is Some == entry is Occupied and
+    the stored Option is what the contract calls memo_get()."""
+    if any(a.startswith("memo_entry()") for a, _ in facts) or not any(a.startswith(("memo_get()", "(memo_get()asSome)")) for a, _ in facts):
+        return facts
+    out = set()
+    for a, p_ in facts:
+        if a == "memo_get() is None":
+            out.add(("memo_entry() is Vacant", p_))
+        elif a == "memo_get() is Some":
+            out.add(("memo_entry() is Occupied", p_))
+        elif a.startswith("(memo_get()asSome).0 is "):
+            out.add(("memo_get() is " + a[len("(memo_get()asSome).0 is "):], p_))
+        else:
+            out.add((a.replace("((memo_get()asSome).0asSome).0", "(memo_get()asSome).0"), p_))
+    return frozenset(out)
+
+
 def load_all():
     res = {}
     if not os.path.isdir(SPEC_DIR):
@@ -352,7 +379,7 @@ def conforms(spec_edges, comp_edges):
         ok = False
         why = []
         for se in cands:
-            cfacts = getattr(ce, "facts_sat", None) or ce.facts
+            cfacts = canon_memo_facts(getattr(ce, "facts_sat", None) or ce.facts)
             if not se.facts <= cfacts and all(_established_by_split(a, p, cfacts) for a, p in (se.facts - cfacts)):
                 pass
             elif not se.facts <= cfacts:
@@ -363,9 +390,9 @@ def conforms(spec_edges, comp_edges):
             if not pos_ok(se.pos, ce.pos, ce.dst):
                 why.append("cursor is at {%s}, contract says %s" % (",".join(sorted(ce.pos)), se.pos))
                 continue
-            req = {norm_effect_str(x) for x in se.effects if not x.endswith("?")}
-            opt = {norm_effect_str(x[:-1]) for x in se.effects if x.endswith("?")}
-            got = {norm_effect_str(x) for x in ce.effects}
+            req = observable({norm_effect_str(x) for x in se.effects if not x.endswith("?")})
+            opt = observable({norm_effect_str(x[:-1]) for x in se.effects if x.endswith("?")})
+            got = observable({norm_effect_str(x) for x in ce.effects})
             if not (req <= got <= (req | opt)):
                 why.append("effects {%s} differ from contract {%s}" % ("; ".join(ce.effects), "; ".join(se.effects)))
                 continue
